@@ -26,8 +26,14 @@ THEOREMS = [
     (P + "no_deadlock", "proved", "whenever the timer callback or a canceller is in the middle of its work some action is enabled (a canceller waits in event_del only while the callback of that very event runs, and that callback can always finish)"),
     (P + "old_protocol_deadlocks", "proved", "the protocol before the repair (event_del under the queue mutex) reaches a state in which neither thread can move: witness schedule fire, cancelBegin"),
     (P + "old_protocol_deadlocks_after_delivery", "proved", "second window of the old protocol: after delivering, before erasing the map entry"),
+    (P + "reachable_projects", "proved", "the queue together with the interpreter's _delayMutex (Model.DelayLocks: <send delay> and <cancel> run under it, delivery takes it): every run of the two-lock model is a run of the queue model, so all of the above holds of it"),
+    (P + "two_locks_once_and_not_early", "proved", "instance: under both locks an event is delivered at most once and not before it is due"),
+    (P + "no_deadlock_two_locks", "proved", "for EVERY schedule of the timer thread and the interpreter thread under both locks, whenever a thread is in the middle of its work some thread can move - in particular with a <cancel>/<send> in the window between timer expiry and delivery"),
+    (P + "never_stuck", "proved", "the same as a statement about the predicate `stuck`"),
+    (P + "held_mutex_deadlocks", "proved", "the variant in which the timer thread keeps _mutex while it calls eventReady dead-locks on a <cancel> in the window (witness schedule)"),
+    (P + "held_mutex_deadlocks_on_send", "proved", "... and on a delayed <send> in the window"),
 ]
-LEAN_FILES = ["UscxmlVerif.Properties.C09"]
+LEAN_FILES = ["UscxmlVerif.Properties.C09", "UscxmlVerif.Properties.C09Locks"]
 G = 15         # ms of timer granularity granted to the implementation: libevent measures with CLOCK_MONOTONIC_COARSE (4 ms ticks here,
                # later in a virtual machine whose ticks are delayed) at event_add and at expiry; the log truncates to ms
 POINTS = ["delayq.run.before_loop", "delayq.stop.before_break", "delayq.timer.entry", "delayq.timer.before_deliver",
@@ -309,7 +315,7 @@ def suite_charts(ctx, n):
         if rc != 0 or len(h) != len(part): raise BrokenTie("harness", "uvharness api rc=%s" % rc)
         return h
     with ThreadPoolExecutor(8) as ex: H = [x for part in ex.map(work, parts) for x in part]
-    st = dict(inputs=len(lines), window_held_open=sum(1 for l in lines if l.count("\t") == 4), as_expected=0, events=0, cancelled_in_time=0, with_reset=0, pending_at_reset=0, violations=0)
+    st = dict(inputs=len(lines), window_held_open=sum(1 for l in lines if l.count("\t") == 4), as_expected=0, events=0, cancelled_in_time=0, with_reset=0, stale_after_racing_reset=0, pending_at_reset=0, violations=0)
     for l, h, (doc, meta) in zip(lines, H, metas):
         toks = h.split(" ")
         st["events"] += sum(1 for t in toks if t.startswith("bpe:d"))
@@ -320,6 +326,19 @@ def suite_charts(ctx, n):
             st["with_reset"] += 1; st["pending_at_reset"] += sum(1 for i in meta["delay"] if "bc:%d" % (100 + i) in toks[:r] and "bpe:d%d" % i not in toks[:r])
             stamp = [t for t in toks[:r] if t.startswith("@")][-1:]
             judged = stamp + toks[r + 1:]
+            # a timer of the first incarnation that was due (to within the granularity) when reset() ran may have been past its
+            # ownership check already: reset's cancel does not find it and it is delivered - the "delivered" outcome of the race the
+            # property allows - after the queues were cleared. Such a stale arrival is taken out before the second incarnation is judged
+            t_reset, t, old_bc = int(stamp[0][1:]) if stamp else 0, 0, {}
+            for tok in toks[:r]:
+                if tok.startswith("@"): t = int(tok[1:])
+                elif tok.startswith("bc:") and tok[3:].isdigit(): old_bc.setdefault(int(tok[3:]) - 100, t)
+            for i, d in meta["delay"].items():
+                if i in old_bc and old_bc[i] + d <= t_reset + G and "bpe:d%d" % i not in toks[:r]:
+                    occ = [k for k, tok in enumerate(judged) if tok == "bpe:d%d" % i]
+                    new_bc = [k for k, tok in enumerate(judged) if tok == "bc:%d" % (100 + i)]
+                    if len(occ) >= 2 or (len(occ) == 1 and (not new_bc or occ[0] < new_bc[0])):
+                        del judged[occ[0]]; st["stale_after_racing_reset"] += 1
         why = ("abnormal end %s%s" % (bad, " - the session hangs: killed by the harness' 20 s watchdog (deadlock)" if "CRASH:14" in bad else "")) if bad or toks[-1] != "end" else chart_oracle(judged, meta)
         if why is None:
             st["as_expected"] += 1
@@ -337,15 +356,28 @@ def run(ctx):
     ctx.audit(THEOREMS, LEAN_FILES)
     quick = ctx.tier == "quick"
     run_dq(ctx, ["send:a:1,send:b:3,cancel:b,wait:8\t-"] * 32)      # discarded: pages the sanitizer build in before anything is timed
+    import lockscopes
+    obs, diffs = lockscopes.facts("/repo")
     suite_schedules(ctx, 600 if quick else 20000)
     suite_charts(ctx, 40 if quick else 1200)
+    # the two-lock layer is written from the lock scopes of the source; they are read again on every run. When they differ the
+    # theorems no_deadlock_two_locks / reachable_projects are not about this code any more: the suites above (forced schedules,
+    # the window held open) are the search for a failing input
+    ctx.add_suite("lock-scopes", inputs=len(obs), as_the_model_assumes=len(obs) - len(diffs), differences=len(diffs), violations=1 if diffs else 0)
+    if diffs and ctx.violations:
+        ctx.notes.append("lock scopes differ from the model's (%s); failing input reported by the suites" % "; ".join(diffs))
+    elif diffs:
+        ctx.violation("lock-scopes", "lock-scopes", ["lock-scopes\t/repo"], found_input=False,
+                      detail="the lock scopes of the source are not those Model.DelayLocks is written from - theorems %sno_deadlock_two_locks and %sreachable_projects no longer apply:\n%s\nthe forced schedules and the charts run with the window held open found no failing input"
+                             % (P, P, "\n".join(diffs)))
     s1, s2 = ctx.coverage["suites"]["dq-schedules"], ctx.coverage["suites"]["chart-delays"]
     ctx.coverage["evaluations"] = s1["inputs"] + s2["inputs"]
     ctx.coverage["distinct_nontrivial"] = s1["races"]
     ctx.coverage["rule"] = ("random scripts of 2-12 enqueue (delays 1-80 ms, 6 keys, re-used keys replace) / cancel / cancelAll / wait operations against the compiled BasicDelayedEventQueue "
                             "with 0-3 schedule hooks sleeping 3-40 ms at the timer thread's and the canceller's protocol points, plus directed races; non-trivial = a cancel met a timer callback "
                             "that had already started; charts with 2-6 delayed sends at distinct multiples of 40 ms, sendids shared by several pending sends or not, and immediate or event-triggered cancels, both engines, judged against the times at which the <send>/<cancel> elements were seen to run; every third chart is reset with delayed events pending and run again (the second incarnation is judged); plus charts run with the window between timer expiry and delivery held open 30-60 ms by a schedule hook while the interpreter thread executes <cancel> (of a far timer, of the timer in the window) and <send delay> elements inside it")
-    ctx.assumptions += ["libevent fires a timer only when due, once per event_add, one callback at a time; event_del waits for a running callback (trusted base)",
+    ctx.assumptions += ["the two-lock layer (Model.DelayLocks) is tied to the source by the lock scopes read from it on every run (lib/lockscopes.py: RAII guards alive at the calls of eventReady, dispose, event_del, event_add, enqueueDelayed, cancelDelayed, deliver) and by the charts run with the window held open; its actions are not replayed from a trace",
+                        "libevent fires a timer only when due, once per event_add, one callback at a time; event_del waits for a running callback (trusted base)",
                         "time is compared at millisecond resolution with %d ms granularity granted" % G,
                         "the order of log lines of different threads is the order in which they took the harness' log mutex (inside the queue's locked sections where the protocol needs it)"]
 
@@ -355,7 +387,12 @@ def replay(ctx, path):
     for line in open(path):
         if "\t" not in line or line.startswith(("#", "property=")): continue
         l = line.rstrip("\n")
-        if l.count("\t") == 1:
+        if l.startswith("lock-scopes\t"):
+            import lockscopes
+            obs, diffs = lockscopes.facts(l.split("\t")[1])
+            for k in sorted(obs): print(k, "->", obs[k])
+            print("\n".join(diffs) or "as the model assumes")
+        elif l.count("\t") == 1:
             h = run_dq(ctx, [l])[0]
             acts, entries, ready, problems = to_actions(l.split("\t")[0], h.split(" "))
             print("log:", h); print("model actions:", " ".join(acts)); print("model:", ctx.driver_lines("dq", [" ".join(acts)])[0]); print("problems:", problems)
